@@ -22,7 +22,8 @@ event; `out` = chunks produced (`[hex,isFirst,isLast]` or null) / return value o
 system after every prefix of them.
 ```
 {"k":"crash","fs":{"dump":hex|null,"tmp":..,"tmp1":..},"inc":bool,"what":"serialize","p":[hex..],"fail":bool}
-{"k":"crash","fs":{...},"inc":bool,"what":"receive","chunks":[[hex,isFirst,isLast]|null, ...]}
+{"k":"crash","fs":{...},"inc":bool,"what":"receive","chunks":[[hex,isFirst,isLast]|null, ...],"fin":true|false|null,
+ "own_at":n,"own_p":[hex..]}   (own_at: the node's own inline dump + checkSerializing after n of the messages)
 ```
 Output `{"ops":["openW tmp","write tmp <hex>","close tmp","rename tmp dump",..],"images":[FS0,..,FSn],"rets":[..]}`.
 -/
@@ -194,10 +195,24 @@ def runCrash (j : Json) : Json :=
        [Json.str (pidStr (s0.serialize 0 (parsePieces j "p") (getBool j "fail")).1.pid)])
     else
       let chunks := (getArr j "chunks").toList.map parseChunk
-      let r := s0.feed chunks
+      -- optional: the node's OWN inline dump (`serialize` + `checkSerializing`) after `own_at` of the messages
+      let (pre, post) := match (getD j "own_at").getNat?.toOption with
+        | some n => (chunks.take n, chunks.drop n)
+        | none => (chunks, [])
+      let r1 := s0.feed pre
+      let (ownOps, r2, ownRets) : List FsOp × Ser × List Json :=
+        match (getD j "own_at").getNat?.toOption with
+        | some _ =>
+          let sr := r1.1.serialize 5 (parsePieces j "own_p") false
+          let ck := sr.1.checkSerializing none
+          (serializeOps (parsePieces j "own_p") false, ck.1, [Json.str (statusStr ck.2.1)])
+        | none => ([], r1.1, [])
+      let r := r2.feed post
+      let ops := s0.feedOps pre ++ ownOps ++ r2.feedOps post
+      let rets := r1.2.map Json.bool ++ ownRets ++ r.2.map Json.bool
       match getD j "fin" with
-      | .bool a => (s0.feedOps chunks ++ r.1.finishOps a, r.2.map Json.bool ++ [Json.bool (r.1.finishIncoming a).2])
-      | _ => (s0.feedOps chunks, r.2.map Json.bool)
+      | .bool a => (ops ++ r.1.finishOps a, rets ++ [Json.bool (r.1.finishIncoming a).2])
+      | _ => (ops, rets)
   let images := (List.range (ops.length + 1)).map (fun k => jFS (fs.crashAt ops k))
   -- fork mode: status `checkSerializing` reports when the child is killed after k of its operations
   let killed : List Json :=
